@@ -52,7 +52,7 @@ class C16(core.Check):
                                        'image-fill:nonzero', 'width:not-a-multiple-of-4', 'zero-length-at-gap-edge', 'gap:align', 'gap:memzone', 'gap:muted', 'gap:zone-org',
                                        'statement-longer-than-96-bytes', 'long-statement:fill', 'long-statement:cstr',
                                        'stale-longer-output-present', 'image-window-starts-inside-a-statement',
-                                       'nested-mute-across-includes', 'include-at-mute-depth:2+']}
+                                       'nested-mute-across-includes', 'include-at-mute-depth:2+', 'image-window-ends-below-a-statement']}
     required_buckets['every-line-length-1..40'] = 2
     required_buckets['several-statements-per-line'] = 3
 
@@ -96,6 +96,16 @@ class C16(core.Check):
                 win_s = l_['addr'] + 1 + (self._n // 5) % (len(l_['bytes']) // 2 - 1)
                 argv_extra = list(argv_extra) + ['-s', str(win_s)]
                 tags.add('image-window-starts-inside-a-statement')
+        win_e = None
+        if self._n % 5 == 4 and M:
+            # an image window that ends a little below a statement of several bytes: nothing of that statement is in the image,
+            # and the formats still describe the whole map
+            multi = [l for l in res.byte_lines if len(l['bytes']) // 2 >= 3 and not l.get('muted') and l['addr'] >= 3]
+            if multi:
+                l_ = multi[self._n % len(multi)]
+                win_e = l_['addr'] - 2 - (self._n // 5) % 2
+                argv_extra = list(argv_extra) + ['-e', str(win_e)]
+                tags.add('image-window-ends-below-a-statement')
         if self._n % 4 == 1:
             # an older, longer output of an earlier run is already there: the new output replaces it completely
             fl = dict(fl)
@@ -106,7 +116,7 @@ class C16(core.Check):
                                                '--pretty-print-output', 'pp.txt'] + argv_extra,
                          'probes': ['steps'], 'step_limit': 4_000_000})
         return {'runs': runs, 'meta': {'M': {str(k): v for k, v in M.items()}, 'stm': stm, 'origin': origin,
-                                       'image': (layout.image(M, win_s, None, fillv) or b'').hex()},
+                                       'image': (layout.image(M, win_s, win_e, fillv) or b'').hex()},
                 'tags': sorted(tags)}
 
     def length_cases(self):
